@@ -185,6 +185,18 @@ Section Proofs.
     - rewrite init_calls in Ec. rewrite <- Ec. rewrite nth_error_map, En. reflexivity.
   Qed.
 
+  Lemma independent_l c1 calls1 sched1 c2 calls2 sched2 t1 th1 t2 th2 p v b1 b2 :
+    sound c1 -> sound c2 ->
+    nth_error (threads (run sched1 (init c1 calls1))) t1 = Some th1 ->
+    nth_error (threads (run sched2 (init c2 calls2))) t2 = Some th2 ->
+    In (p, v, b1) (done th1) -> In (p, v, b2) (done th2) -> b1 = b2.
+  Proof.
+    intros H1 H2 E1 E2 I1 I2.
+    destruct (verdicts_l c1 calls1 sched1 H1) as [_ A1]. destruct (verdicts_l c2 calls2 sched2 H2) as [_ A2].
+    destruct (A1 _ _ E1) as [B1 _]. destruct (A2 _ _ E2) as [B2 _].
+    rewrite (B1 _ _ _ I1), (B2 _ _ _ I2). reflexivity.
+  Qed.
+
   (* ---- the lock discipline ---- *)
 
   Definition minv (st : state) : Prop :=
